@@ -6,7 +6,7 @@ namespace Relic.PS
 open Relic
 
 theorem digestLoop_ts_le (first : Bytes) (u16 : Bool) (k flen : Nat) (items : List Item) (saved h : Bytes) (ts pos : Nat)
-    (H : Bytes) (T S : Nat) (e : digestLoop true first u16 k flen items saved h ts pos = .ok (H, T, S)) : ts ≤ T := by
+    (H : Bytes) (T S : Nat) (e : digestLoop true true first u16 k flen items saved h ts pos = .ok (H, T, S)) : ts ≤ T := by
   induction items generalizing saved h ts pos with
   | nil =>
     simp only [digestLoop] at e
@@ -20,8 +20,10 @@ theorem digestLoop_ts_le (first : Bytes) (u16 : Bool) (k flen : Nat) (items : Li
       split at e
       · split at e
         · simp at e
-        · injection e with e; injection e with e1 e2; injection e2 with e2 e3
-          omega
+        · split at e
+          · simp at e
+          · injection e with e; injection e with e1 e2; injection e2 with e2 e3
+            omega
       · have := ih _ _ _ _ e
         omega
 
@@ -31,12 +33,12 @@ theorem digestLoop_ts_le (first : Bytes) (u16 : Bool) (k flen : Nat) (items : Li
     reports the same stream and the same text size. -/
 theorem digestLoop_frame (first eol : Bytes) (u16 : Bool) (flen flen' : Nat) (hk : 0 < eol.length)
     (p x : Bytes) (restf more : List Item) (ph1 ph2 ph3 : Nat)
-    (hx : x = [] → restf = []) (nf : p ++ eol ≠ first) :
+    (hx : x = [] → restf = []) (nf : p ++ eol ≠ first) (hsfx : first.drop (first.length - eol.length) = eol) :
     ∀ (xs : List Item) (saved h : Bytes) (ts pos : Nat) (H : Bytes) (T S : Nat), Good xs →
       pos = ts + saved.length →
-      digestLoop true first u16 eol.length flen (xs ++ (.line (p ++ x) ph1 :: restf)) saved h ts pos = .ok (H, T, S) →
+      digestLoop true true first u16 eol.length flen (xs ++ (.line (p ++ x) ph1 :: restf)) saved h ts pos = .ok (H, T, S) →
       T = pos + (joinItems xs).length + p.length →
-      ∃ S', digestLoop true first u16 eol.length flen' (xs ++ (.line (p ++ eol) ph2 :: .line first ph3 :: more)) saved h ts pos
+      ∃ S', digestLoop true true first u16 eol.length flen' (xs ++ (.line (p ++ eol) ph2 :: .line first ph3 :: more)) saved h ts pos
         = .ok (H, T, S') := by
   intro xs
   induction xs with
@@ -44,11 +46,15 @@ theorem digestLoop_frame (first eol : Bytes) (u16 : Bool) (flen flen' : Nat) (hk
     intro saved h ts pos H T S _ hp e hT
     simp only [List.nil_append, joinItems, List.flatMap_nil, List.length_nil, Nat.add_zero] at e hT ⊢
     -- the second run: `p ++ eol` is not the marker, the next line is
-    have run2 : digestLoop true first u16 eol.length flen' (.line (p ++ eol) ph2 :: .line first ph3 :: more) saved h ts pos
+    have run2 : digestLoop true true first u16 eol.length flen' (.line (p ++ eol) ph2 :: .line first ph3 :: more) saved h ts pos
         = .ok (h ++ conv u16 saved ++ conv u16 p, ts + saved.length + p.length,
                eol.length + first.length + (flen' - (pos + ph2 + ph3))) := by
       simp only [digestLoop, if_neg nf, if_true]
       rw [if_neg (by simp)]
+      rw [if_neg (by
+        intro hc
+        apply hc.2
+        rw [hsfx, List.length_append, Nat.add_sub_cancel, List.drop_left])]
       simp [List.length_append, List.take_append_of_le_length, Nat.add_assoc]
     rw [run2]
     suffices hh : H = h ++ conv u16 saved ++ conv u16 p ∧ T = ts + saved.length + p.length by
@@ -59,9 +65,11 @@ theorem digestLoop_frame (first eol : Bytes) (u16 : Bool) (flen flen' : Nat) (hk
     · -- `p ++ x` is the marker: the text would end before `p`
       split at e
       · simp at e
-      · injection e with e; injection e with e1 e2; injection e2 with e2 e3
-        simp only [List.length_take] at e2
-        omega
+      · split at e
+        · simp at e
+        · injection e with e; injection e with e1 e2; injection e2 with e2 e3
+          simp only [List.length_take] at e2
+          omega
     · cases restf with
       | nil =>
         simp only [digestLoop] at e
@@ -88,13 +96,15 @@ theorem digestLoop_frame (first eol : Bytes) (u16 : Bool) (flen flen' : Nat) (hk
           · split at e
             · simp at e
             · rename_i hge
-              injection e with e; injection e with e1 e2; injection e2 with e2 e3
-              simp only [List.length_take, List.length_append] at e2 hge
-              have hxk : x.length = eol.length := by omega
-              have : List.take ((p ++ x).length - eol.length) (p ++ x) = p := by
-                rw [List.length_append, hxk, Nat.add_sub_cancel, List.take_left' rfl]
-              rw [this] at e1
-              exact ⟨e1.symm, by omega⟩
+              split at e
+              · simp at e
+              · injection e with e; injection e with e1 e2; injection e2 with e2 e3
+                simp only [List.length_take, List.length_append] at e2 hge
+                have hxk : x.length = eol.length := by omega
+                have : List.take ((p ++ x).length - eol.length) (p ++ x) = p := by
+                  rw [List.length_append, hxk, Nat.add_sub_cancel, List.take_left' rfl]
+                rw [this] at e1
+                exact ⟨e1.symm, by omega⟩
           · have := digestLoop_ts_le _ _ _ _ _ _ _ _ _ _ _ _ e
             simp only [List.length_append] at this
             omega
@@ -110,8 +120,12 @@ theorem digestLoop_frame (first eol : Bytes) (u16 : Bool) (flen flen' : Nat) (hk
         · simp at e
         · rename_i hge
           rw [if_neg hge]
-          injection e with e; injection e with e1 e2; injection e2 with e2 e3
-          exact ⟨_, by rw [e1, e2]⟩
+          split at e
+          · simp at e
+          · rename_i hck
+            rw [if_neg hck]
+            injection e with e; injection e with e1 e2; injection e2 with e2 e3
+            exact ⟨_, by rw [e1, e2]⟩
       · rw [if_neg hl] at e ⊢
         obtain ⟨b, hb⟩ := hg (.line l phys) (by simp)
         injection hb with hb1 hb2
@@ -287,6 +301,17 @@ theorem marker_nolf (style : Nat) (st en : Bytes) (hs : styleOf style = some (st
     | (injection hs with hs; injection hs with h1 h2; subst h1; subst h2; decide)
     | cases hs
 
+/-- the last two bytes of the begin-marker line (UTF-16: the last four) are its CRLF: what fix F-ps-eol compares with -/
+theorem firstLine_sfx8 (st en : Bytes) :
+    (firstLine st en false).drop ((firstLine st en false).length - crlf.length) = crlf := by
+  have : firstLine st en false = (st ++ psBegin ++ en) ++ crlf := by simp [firstLine]
+  rw [this, List.length_append, Nat.add_sub_cancel, List.drop_left]
+
+theorem firstLine_sfx16 (st en : Bytes) :
+    (firstLine st en true).drop ((firstLine st en true).length - (widen crlf).length) = widen crlf := by
+  have : firstLine st en true = widen (st ++ psBegin ++ en) ++ widen crlf := by simp [firstLine, widen_append]
+  rw [this, List.length_append, Nat.add_sub_cancel, List.drop_left]
+
 /-- UTF-8 (more precisely: not UTF-16 with BOM) scripts -/
 theorem DigestPS_signed8 (f : Bytes) (style : Nat) (d : Digest) (st en sig : Bytes) (e : DigestPS f style = .ok d)
     (hs : styleOf style = some (st, en)) (hu : isUtf16 f = false)
@@ -298,7 +323,7 @@ theorem DigestPS_signed8 (f : Bytes) (style : Nat) (d : Digest) (st en sig : Byt
   unfold DigestPS digestWith at e
   rw [hs] at e
   simp only [hu, Bool.false_eq_true, if_false] at e
-  cases hl : digestLoop true (firstLine st en false) false 2 f.length (lines8 [] f) [] [] 0 0 with
+  cases hl : digestLoop true true (firstLine st en false) false 2 f.length (lines8 [] f) [] [] 0 0 with
   | err _ => simp [hl] at e
   | panic _ => simp [hl] at e
   | diverge => simp [hl] at e
@@ -341,7 +366,7 @@ theorem DigestPS_signed8 (f : Bytes) (style : Nat) (d : Digest) (st en sig : Byt
       simp [crlf, List.append_assoc]
     obtain ⟨S', hrun⟩ := digestLoop_frame (firstLine st en false) crlf false (text ++ tf).length
       (text ++ block st en false sig).length (by decide) (pend8 [] text) x restf (lines8 [] (blockRest st en sig)) ph1
-      ((pend8 [] text ++ [13]).length + 1) (([] ++ (st ++ psBegin ++ en ++ [13])).length + 1) hx nf
+      ((pend8 [] text ++ [13]).length + 1) (([] ++ (st ++ psBegin ++ en ++ [13])).length + 1) hx nf (firstLine_sfx8 st en)
       (comp8 [] text) [] [] 0 0 Hh T S hg rfl hl hT
     have hu' : isUtf16 (text ++ block st en false sig) = false := by
       rw [isUtf16_eq] at hu ⊢
@@ -374,7 +399,7 @@ theorem DigestPS_signed16 (f : Bytes) (style : Nat) (d : Digest) (st en sig : By
   unfold DigestPS digestWith at e
   rw [hs] at e
   simp only [hu, if_true] at e
-  cases hl : digestLoop true (firstLine st en true) true 4 f.length (lines16 [] f) [] [] 0 0 with
+  cases hl : digestLoop true true (firstLine st en true) true 4 f.length (lines16 [] f) [] [] 0 0 with
   | err _ => simp [hl] at e
   | panic _ => simp [hl] at e
   | diverge => simp [hl] at e
@@ -418,7 +443,7 @@ theorem DigestPS_signed16 (f : Bytes) (style : Nat) (d : Digest) (st en sig : By
     obtain ⟨S', hrun⟩ := digestLoop_frame (firstLine st en true) (widen crlf) true (text ++ tf).length
       (text ++ block st en true sig).length (by decide) (pend16 [] text) x restf (lines16 [] (widen (blockRest st en sig))) ph1
       ((pend16 [] text ++ widen [13]).length + 2) (([] ++ widen (st ++ psBegin ++ en ++ [13])).length + 2) hx nf
-      (comp16 [] text) [] [] 0 0 Hh T S hg rfl hl hT
+      (firstLine_sfx16 st en) (comp16 [] text) [] [] 0 0 Hh T S hg rfl hl hT
     have hu' : isUtf16 (text ++ block st en true sig) = true := by
       rw [isUtf16_eq] at hu ⊢
       have hu0 := of_decide_eq_true hu
